@@ -1,8 +1,9 @@
 #!/usr/bin/env python3
 """Maintenance: (re)write the 'Wave 3' section of seeded/INDEX.md from seeded/*-w3-*/meta.json."""
-import glob, json, os, re
+import glob, json, os, re, sys
+W = sys.argv[1] if len(sys.argv) > 1 else "3"
 here = os.path.dirname(os.path.dirname(os.path.abspath(__file__)))
-metas = [json.load(open(f)) for f in sorted(glob.glob(os.path.join(here, 'seeded', '*-w3-*', 'meta.json')))]
+metas = [json.load(open(f)) for f in sorted(glob.glob(os.path.join(here, 'seeded', '*-w%s-*' % W, 'meta.json')))]
 import collections
 st = collections.Counter(m['status'] for m in metas)
 rows = []
@@ -11,19 +12,19 @@ for m in metas:
     rows.append('| %s | %s | %s | %s | %s | %s |' % (m['id'], m['breaks_property'], esc(m['change']), esc(m['needs_to_manifest']),
                 m['status'] + ('' if m.get('reported_by_check') in (None, m['breaks_property']) or not m['status'].startswith('caught') else ' (%s)' % m['reported_by_check']),
                 esc(m.get('strengthening') or '-')))
-sec = ['<!-- wave3:begin -->', '## Wave 3',
+sec = ['<!-- wave%s:begin -->' % W, '## Wave %s' % W,
        '',
-       '%d changes, 2 per property; the authors were given the list of ideas used in waves 1-2 and had to avoid them.' % len(metas),
+       ('%d changes, 2 per property; the authors were given the list of ideas used in waves 1-2 and had to avoid them.' if W == '3' else '%d changes, one per property for eight properties with builder-made checks; the authors were given the ideas of waves 1-3 and had to avoid them; every check was evaluated untouched first.') % len(metas),
        'Status counts: ' + ', '.join('%s: %d' % kv for kv in sorted(st.items())) + '.',
-       'For the nine checks built by the lead the ideas were read first and the families they need were added before the',
+       ] + (['For the nine checks built by the lead the ideas were read first and the families they need were added before the',
        'evaluation (so "caught-after-strengthening" there means: would have been missed by the check as it stood); for the',
-       'builders\' checks the evaluation came first and the misses were handed to the builder of the check.',
+       'builders\' checks the evaluation came first and the misses were handed to the builder of the check.'] if W == '3' else []) + [
        '',
-       '| id | property | change | needs | status | strengthening |', '|---|---|---|---|---|---|'] + rows + ['<!-- wave3:end -->']
+       '| id | property | change | needs | status | strengthening |', '|---|---|---|---|---|---|'] + rows + ['<!-- wave%s:end -->' % W]
 p = os.path.join(here, 'seeded', 'INDEX.md')
 s = open(p).read()
-if '<!-- wave3:begin -->' in s:
-    s = re.sub(r'<!-- wave3:begin -->.*<!-- wave3:end -->', lambda m: '\n'.join(sec), s, flags=re.S)
+if '<!-- wave%s:begin -->' % W in s:
+    s = re.sub(r'<!-- wave%s:begin -->.*<!-- wave%s:end -->' % (W, W), lambda m: '\n'.join(sec), s, flags=re.S)
 else:
     s = s.rstrip('\n') + '\n\n' + '\n'.join(sec) + '\n'
 open(p, 'w').write(s)
